@@ -215,6 +215,33 @@ def check_case(case):
                 return Verdict("known", finding="C19-void-element-with-children", nontrivial=True)
             return Verdict("fail", "%s walker -> to_sax: %s; input %s container=%r ns=%s" % (builder, msg, short(text, 160), container, ns),
                            "sax:" + msg.split(":")[0][:50], nontrivial=True)
+    # a walker given a SUBTREE (an element that has following siblings: head, the first child of a fragment): the events describe that
+    # element and nothing after it
+    if not known_trigger:
+        for builder in ("dom", "etree"):
+            try:
+                r, p = h5.parse(text, builder=builder, namespace=ns, scripting=scripting, container=container, full_tree=True)
+                if builder == "dom":
+                    top = r if not doc else next((c for c in r.childNodes if c.nodeType == 1), None)
+                    node = next((c for c in top.childNodes if c.nodeType == 1), None) if top is not None else None
+                else:
+                    top = r if not doc else next((c for c in r if isinstance(c.tag, str) and c.tag != "<!DOCTYPE>"), None)
+                    node = next((c for c in top if isinstance(c.tag, str)), None) if top is not None else None
+                if node is None:
+                    continue
+                want_n = expected(obs.flat(node))
+                rec_n = Recorder()
+                sax.to_sax(h5.walk(node, builder), rec_n)
+                msg = grammar_violation(rec_n.events)
+                if msg is None:
+                    got_n = rebuild(rec_n.events, want_n[0][1])
+                    if got_n != want_n:
+                        d = obs.first_diff(want_n, got_n)
+                        msg = "tree rebuilt from the events of a SUBTREE walk differs at record %d: subtree %s, events %s" % (d[0], short(d[1], 140), short(d[2], 140))
+            except Exception as e:
+                msg = "to_sax over a subtree walk raised %s: %s" % (type(e).__name__, short(str(e), 80))
+            if msg is not None:
+                return Verdict("fail", "%s walker over a subtree -> to_sax: %s; input %s container=%r ns=%s" % (builder, msg, short(text, 160), container, ns), "sax-subtree:" + msg.split(":")[0][:50], nontrivial=True)
     # a walker over another ElementTree implementation (getTreeWalker('etree', implementation=X)), requested after the default one:
     # to_sax gives the same events whichever implementation holds the tree
     if not known_trigger:
